@@ -28,6 +28,27 @@ CLAIMS = {
    note=PROOF_NOTE + "PARTIAL: IEEE-754 evaluation of estimate_count and the statistical accuracy of HyperLogLog are outside the kernel's reach.",
    technique="Lean 4 proof (list induction, max-semilattice laws) + differential correspondence; labelled statistical test",
    design="6/C20"),
+ 'C19': dict(
+   text="Lean theorems: for all part lists and all buffers, Tags::from_parts / Event::from_parts / Filter::from_parts (and the owned "
+        "constructors) either fail or return a value whose every accessor and iterator (modelled byte-for-byte: offset table, counts, "
+        "length-prefixed strings) reproduces exactly the parts (decode(encode x) = x), leave the rest of the buffer untouched, refuse "
+        "sections over 65,535 bytes / more than 65,535 tags, ids, authors, kinds / events over u32, return an error for every too-small "
+        "buffer, and never panic. Correspondence: constructors and all accessors on the real values vs the model, on part lists around "
+        "every u16 boundary (65,535/65,536 tags, 65,531..70,000-byte strings) and buffer lengths need-8..need+8 and 0..200.",
+   note=PROOF_NOTE + "The JSON constructors are decided under C01/C07/C03 (parseEvent_wf: a successful parse wrote the encoding of a sized event).",
+   technique="Lean 4 proof (layout lemmas: decode-after-encode by induction over tags/strings) + differential correspondence with a direct oracle on accessor values",
+   design="6/C19"),
+ 'C03': dict(
+   text="Lean theorems: for every input byte string and every output-buffer length, the models of Event/Filter/Tags::from_json, json_unescape, "
+        "json_escape and read_hex return ok or err, never panic (every index, slice, checked-arithmetic and unwrap site of the Rust is an explicit "
+        "guard in the model); json_unescape writes only inside its buffer and consumes no more than its input; the skip family refuses nesting "
+        "beyond 64 levels instead of recursing; a successful event/tags parse wrote, inside the buffer, the encoding of a value whose parts fit "
+        "every field, so that all accessors read it back (parseEvent_wellformed). Direct oracle on the real code, in a debug (overflow-checked) and "
+        "a release build: no panic/abort/hang, guard bytes intact, consumed <= input, all accessors/serializers total on every Ok, over every prefix "
+        "of valid texts, single-byte corruptions incl. bytes >= 0x80, deep nesting to 200,000, 400-digit numbers, every buffer length.",
+   note=PROOF_NOTE + "Stack exhaustion depends on the platform stack size (the worker exhibits aborts; the model bounds depth). Addr::try_from_bytes is covered by the direct oracle only (std parse::<u16>/from_utf8 are not modelled). Filter well-formedness after from_json is covered by correspondence, not yet by a theorem.",
+   technique="Lean 4 proof (totality by induction on fuel/structure; invariant over the member loop) + direct no-panic/guard-byte oracle in two build modes + differential correspondence",
+   design="6/C03"),
 }
 
 checks = []
